@@ -52,8 +52,11 @@ for tier in tuple(os.environ.get("SEED_TIERS", "quick,thorough").split(",")):
             m = re.search(r"replay=(\S+)", viol[0])
             if m and os.path.exists(m.group(1)):
                 res[tier]["replay_excerpt"] = open(m.group(1)).read()[:1500]
+    except subprocess.TimeoutExpired:
+        res[tier] = {"violations": [], "summary": f"NO VERDICT: bin/check {pid} {tier} did not finish within the limit on this change", "wall_s": -1}
     finally:
         sh(f"git -C {target} checkout -- .")
+        sh(f"git -C /verif checkout -- evidence/{pid}.json")
     if res[tier]["violations"]:
         break
 meta["check"] = res
